@@ -44,8 +44,18 @@ def sh_digest(text):
     return hashlib.md5(('\n'.join(toks) + '\n').encode()).hexdigest()[:12]
 
 
-def run_ddsmt(text, opts, cmd, env=None, timeout=300, keep=False, ext='.smt2', infile_name=None, stdin=None):
-    """Run ddSMT (launcher) on the given input text. cmd: list (the command with its arguments)."""
+def run_ddsmt(text, opts, cmd, env=None, timeout=300, keep=False, ext='.smt2', infile_name=None, stdin=None, safe_limits=True):
+    """Run ddSMT (launcher) on the given input text. cmd: list (the command with its arguments).
+    safe_limits: give the checks an explicit, generous time limit.  The default limit is 1.5 x (golden run + 1 s), about
+    1.6 s for the scripted commands; on a heavily loaded machine a check can take longer, is then rejected as a timeout, and a
+    deterministic command has become a non-deterministic one (a false alarm of C02 in a thorough run under load).  C10, whose
+    subject the limits are, switches this off."""
+    opts = list(opts)
+    if safe_limits:
+        if '--timeout' not in opts:
+            opts = ['--timeout', '90'] + opts
+        if '-c' in opts and '--timeout-cc' not in opts:
+            opts = ['--timeout-cc', '90'] + opts
     d = tempfile.mkdtemp(prefix='verif-run-', dir=SCRATCH_ROOT)
     try:
         infile = os.path.join(d, infile_name or ('in' + ext))
@@ -232,6 +242,44 @@ def analyse(run):
             P['C01'].append('an output file was written although no candidate was ever accepted')
     if not run.input_unmodified:
         P['C01'].append('the input file was modified')
+    # C14: every round of the ddmin main loop schedules every mutator of its pass lists: the first-stage mutators in order
+    # (each repeated until it reduces nothing), then every second-stage mutator exactly once, in order
+    dp = [e for e in ev if e['ev'] == 'ddmin_passes']
+    if dp and len(dp[0]['stages']) == 2 and run.rc == 0:
+        st0, st1 = dp[0]['stages']
+        names = dict(zip(st0 + st1, dp[0]['names'][0] + dp[0]['names'][1]))
+        seq = [e['mid'] for e in ev if e['ev'] == 'taskgen' and e.get('first') and e.get('mid') is not None]
+        i, rnd, bad = 0, 0, None
+        while i < len(seq) and bad is None:
+            rnd += 1
+            for m in st0:
+                if i >= len(seq) or seq[i] != m:
+                    bad = (rnd, m)
+                    break
+                while i < len(seq) and seq[i] == m:
+                    i += 1
+            if bad is None:
+                for m in st1:
+                    if i >= len(seq) or seq[i] != m:
+                        bad = (rnd, m)
+                        break
+                    i += 1
+        if bad is not None:
+            P['C14'].append(f"round {bad[0]} of the ddmin main loop did not schedule the enabled mutator {names.get(bad[1], bad[1])!r} "
+                            f"(mutators scheduled in that run, in order: {seq[:60]})")
+    # C05: an adopted input is obtained from its predecessor by a simplification: it is never the predecessor plus a command
+    wt = [e for e in ev if e['ev'] == 'write' and e.get('toks')]
+    for a, b in zip(wt, wt[1:]):
+        ta, tb = a['toks'], b['toks']
+        if len(tb) > len(ta):
+            # is ta a subsequence of tb with ONE contiguous block inserted?
+            k = 0
+            while k < len(ta) and ta[k] == tb[k]:
+                k += 1
+            extra = len(tb) - len(ta)
+            if tb[k + extra:] == ta[k:] and tb[k:k + extra][:1] == ['('] and tb[k:k + extra].count('(') == tb[k:k + extra].count(')'):
+                P['C05'].append(f"adopted input {b['digest']} is its predecessor plus the command {' '.join(tb[k:k + extra])[:120]!r}: nothing was simplified")
+                break
     # C15: no candidate declares a symbol a second time (unless the input itself does)
     given = set(d_ for e in ev if e['ev'] == 'parsed' for d_ in e.get('dup_decl', []))
     for e in ev:
